@@ -132,6 +132,14 @@ pub fn variants(full: &[u8]) -> Vec<(&'static str, Vec<u8>)> {
         let mut e = full.to_vec();
         e.extend_from_slice(b"trailing body bytes \x00\r\n\r\n");
         v.push(("with-body", e));
+        // a NUL close to the end, a lone CR in the middle (what a line skipper must still see)
+        let mut e = full.to_vec();
+        let l = e.len();
+        e[l - 3] = 0x00;
+        v.push(("nul-at-end", e));
+        let mut e = full.to_vec();
+        e[l / 2] = b'\r';
+        v.push(("cr-in-middle", e));
         // the other spellings of the two final line ends (a pre-scan for the end of the head has
         // to know all four)
         if full.ends_with(b"\r\n\r\n") {
@@ -222,8 +230,18 @@ pub fn add_families(p: &mut Plan, q: bool) {
             }));
         }
     }
-    p.phases.push(Phase { label: format!("S8: {} adversarial size families × sizes {:?} × up to 8 variants × capacities 0/1/enough", n, sizes), backend: Backend::Native, tasks });
-    p.bounds.push(format!("S8: {} generators × sizes {:?} bytes × variants complete/truncated-1/truncated-3/error-at-end/with-body and the three other spellings of the two final line ends × capacities 0, 1, enough", n, sizes));
+    // beyond 1 MiB (2 MiB + 4 KiB): the families that are one long field or one long unfinished line
+    for fam in 0..n {
+        let name = families()[fam].name;
+        if name.starts_with("huge-") || name.ends_with("-unterminated") || name == "ignored-long-line" {
+            tasks.push(Box::new(move |ck: &mut Checker| {
+                let fs = families();
+                run_one(ck, fam, &fs[fam], (2 << 20) + 4096);
+            }));
+        }
+    }
+    p.phases.push(Phase { label: format!("S8: {} adversarial size families × sizes {:?} (single-field and unterminated ones also at 2 MiB + 4 KiB) × up to 10 variants × capacities 0/1/enough", n, sizes), backend: Backend::Native, tasks });
+    p.bounds.push(format!("S8: {} generators × sizes {:?} bytes × variants complete/truncated-1/truncated-3/error-at-end/with-body/nul-at-end/cr-in-middle and the three other spellings of the two final line ends; single-field and unterminated families also at 2 MiB + 4 KiB × capacities 0, 1, enough", n, sizes));
 }
 
 fn ops(c: &httparse::_verif::counters::Counters) -> u64 {
@@ -292,7 +310,7 @@ pub fn replay(text: &str) -> i32 {
     }
     let f = &fs[fam];
     let journal = std::sync::Arc::new(crate::journal::Journal::anonymous());
-    let caller = Caller::new(journal.slot(0), 5 << 20, 2_000_000);
+    let caller = Caller::new(journal.slot(0), 6 << 20, 2_000_000);
     let mut ck = Checker::new(&prop, armed, caller);
     ck.limit = 100;
     println!("replaying {} on size family {} ({})", prop, f.name, d);
